@@ -73,7 +73,7 @@ def strategy_(draw, tier):
                                              "vmtar-modes", "vhdx-abs-parent", "hyperv-dirty", "rw-handles", "envelope-decrypt-big", "cli-big",
                                              "cli-output-dir", "cli-output-evidence-dir", "cli-relative-output", "hyperv-fileobject",
                                              "vmdk-rw-descriptor-handle", "vmtar-empty", "vmtar-odd-handles", "hdd-backup-descriptor", "cli-decomposed-name", "qcow2-bad-deflate", "vmdk-missing-parent",
-                                             "hdd-in-use", "vmdk-short-flat", "vhd-gzip-big"]),
+                                             "hdd-in-use", "vmdk-short-flat", "vhd-gzip-big", "envelope-spooled", "reader-closed"]),
                             min_size=2, max_size=10))
         return {"workload": w, "ops": ops, "n": draw(st.integers(0, 1 << 20))}
     mod = importlib.import_module(f"hv.props.{w.lower()}")
@@ -465,6 +465,44 @@ def run_scenario(spec, out):
                                         raise AssertionError("handle: the bytes behind a caller-supplied handle changed")
                                 h.close()
                             os.remove(pa)
+                    elif op == "envelope-spooled":
+                        # an in-memory spooled temporary file: asking it for a file descriptor makes it write itself to disk
+                        import tempfile as _tf
+
+                        h = _tf.SpooledTemporaryFile(max_size=1 << 24)
+                        h.write(info["envelope_bytes"])
+                        h.seek(0)
+                        if Envelope(h).decrypt(info["key"]) != info["payload"]:
+                            raise AssertionError("envelope from a spooled temporary file decrypts to other bytes")
+                        if getattr(h, "_rolled", False):
+                            raise AssertionError("handle: the caller's in-memory spooled file was rolled over to disk by the library")
+                        h.close()
+                    elif op == "reader-closed":
+                        # the reader is closed / leaves its with-block / is dropped: the caller's file object stays open (a
+                        # delete-on-close temporary file would be gone otherwise)
+                        import gc as _gc
+                        import tempfile as _tf
+
+                        src = os.path.join(os.path.dirname(info["vmdk"]), "delta-s000.vmdk")
+                        with open(src, "rb") as f:
+                            content = f.read()
+                        ntf = _tf.NamedTemporaryFile(dir=outdir, suffix=".vmdk")
+                        ntf.write(content)
+                        ntf.flush()
+                        for how in ("with", "close", "drop"):
+                            ntf.seek(0)
+                            v = VMDK(ntf)
+                            v.read(512)
+                            if how == "with":
+                                with v:
+                                    pass
+                            elif how == "close":
+                                v.close()
+                            del v
+                            _gc.collect(1)
+                            if ntf.closed or not os.path.exists(ntf.name):
+                                raise AssertionError(f"handle: the caller's temporary file was closed / deleted when the reader was released ({how})")
+                        ntf.close()
                     elif op == "vmtar-empty":
                         for pth in info["vmtar-empty"]:
                             for how in ("name", "handle", "rw-handle"):
